@@ -105,6 +105,40 @@ def cmd_confirm(args):
         shutil.rmtree(SCRATCH, ignore_errors=True)
 
 
+def cmd_run_alt(args, tier="quick"):
+    """Like run, but applies each patch to a scratch worktree and points the check at it (VERIF_REPO),
+    so that /repo is not touched and other checks may run at the same time."""
+    import hashlib
+    for sid in ids(args):
+        d = os.path.join(SEEDED, sid)
+        m = load_meta(d)
+        props = list(m.get("breaks", [sid[:3]])) + [p for p in m.get("also_run", []) if p not in m.get("breaks", [])]
+        wt = f"/root/scratch/alt_{sid}"
+        sh(f"git -C /repo worktree remove --force {wt}")
+        shutil.rmtree(wt, ignore_errors=True)
+        assert sh(f"git -C /repo worktree add --detach {wt} HEAD").returncode == 0
+        results = m.setdefault("check_results", {})
+        try:
+            a = sh(f"git apply {os.path.join(d, 'patch.diff')}", cwd=wt)
+            if a.returncode != 0:
+                results["error"] = "patch does not apply: " + a.stderr[-200:]
+            else:
+                for p in props:
+                    t0 = time.time()
+                    r = sh(f"VERIF_REPO={wt} ./check {p} {tier} -no-minimise", cwd=ROOT, timeout=7200)
+                    lines = r.stdout.splitlines()
+                    results[f"{p}:{tier}"] = {"exit": r.returncode, "violation_lines": sum(l.startswith("VIOLATION") for l in lines),
+                                              "first": [l.strip()[:260] for l in lines if l.startswith("  [")][:2], "wall_s": round(time.time() - t0, 1)}
+        finally:
+            sh(f"git -C /repo worktree remove --force {wt}")
+            shutil.rmtree(wt, ignore_errors=True)
+            h = hashlib.md5((wt + "\n").encode()).hexdigest()[:8]
+            shutil.rmtree(os.path.join(ROOT, ".build", "alt-" + h), ignore_errors=True)
+        m["ran"] = "scratch worktree of /repo HEAD with patch.diff applied; VERIF_REPO=<worktree> ./check <ID> <tier> -no-minimise (same machinery, built against that tree); worktree and build output removed"
+        save_meta(d, m)
+        print(f"{sid:12s} " + " ".join(f"{k}=exit{v['exit']}" for k, v in results.items() if isinstance(v, dict)), flush=True)
+
+
 def cmd_run(args, tier="quick", extra_props=None):
     assert sh("git status --porcelain", cwd="/repo").stdout.strip() == "", "/repo working tree must be clean"
     for sid in ids(args):
@@ -174,6 +208,12 @@ if __name__ == "__main__":
         if args and args[0] in ("quick", "thorough"):
             tier, args = args[0], args[1:]
         cmd_run(args, tier)
+    elif c == "run-alt":
+        tier = "quick"
+        args = sys.argv[2:]
+        if args and args[0] in ("quick", "thorough"):
+            tier, args = args[0], args[1:]
+        cmd_run_alt(args, tier)
     elif c == "table":
         cmd_table()
     else:
